@@ -93,15 +93,23 @@ def _clone_engine(t):
             return obj.clone()
         if isinstance(obj, yacc.LRParser):
             return copy.copy(obj)
+        if isinstance(obj, yaql.language.factory.YaqlFactory):
+            return obj
         if depth < 2 and type(obj).__module__.startswith('yaql.') and \
-                hasattr(obj, '__dict__') and not isinstance(
-                    obj, yaql.language.factory.YaqlFactory):
+                hasattr(obj, '__dict__'):
             c = copy.copy(obj)
             for k, v in list(vars(c).items()):
                 nv = private(v, depth + 1)
                 if nv is not v:
                     setattr(c, k, nv)
             return c
+        if depth >= 1 and isinstance(obj, (dict, list, set, bytearray)):
+            # mutable state of the pristine template (caches, counters'
+            # containers): the reference gets its own, equally pristine copy
+            try:
+                return copy.deepcopy(obj)
+            except Exception:   # noqa
+                return obj
         return obj
     return private(t, 0)
 
